@@ -1,6 +1,7 @@
 import FuModel.Find.Expr
 import FuModel.Find.Walk
 import FuModel.Base.Path
+import FuModel.Find.Numeric
 
 /-!
 # A whole run of find: starting points, configuration, walk, evaluation (`do_find`)
@@ -13,9 +14,29 @@ open FuModel.Find.Expr FuModel.Find.Walk
 
 abbrev Bytes := List UInt8
 
+/-- the fields of a status record the tests look at -/
+structure Rec where
+  perm : Nat := 0      -- the twelve permission bits
+  nlink : Nat := 0
+  uid : Nat := 0
+  gid : Nat := 0
+  ino : Nat := 0
+  size : Nat := 0
+  dev : Nat := 0
+  deriving Repr, DecidableEq
+
 structure Attr where
   lty : Char     -- file type letter according to lstat: f d l p s c b
   sty : Char     -- according to stat; 'N' = not found, 'L' = too many levels of links
+  l : Rec := {}  -- lstat record
+  s : Rec := {}  -- stat record (meaningful when `sty` is a type letter)
+  target : Bytes := []   -- link text (for symbolic links)
+  deriving Repr, DecidableEq
+
+inductive PermKind where | exact | atLeast | anyOf
+  deriving Repr, DecidableEq
+
+inductive StatField where | links | inum | uid | gid
   deriving Repr, DecidableEq
 
 inductive Prim where
@@ -23,6 +44,12 @@ inductive Prim where
   | opt                                  -- an option used as a primary: always true
   | name (lit : Bytes)                   -- -name with a metacharacter-free pattern
   | typeIs (c : Char)
+  | xtype (c : Char)
+  | perm (k : PermKind) (mode : Nat)
+  | statCmp (f : StatField) (c : FuModel.Find.Cmp)
+  | empty
+  | samefile (dev ino : Nat)
+  | lname (lit : Bytes)
   | pathOut (pre : Bytes) (term : Bytes) -- writes pre ++ path ++ term  (-print, -print0, -printf 'pre%pterm')
   | lit (b : Bytes)                      -- -printf with literal text only
   | prune | quit
@@ -70,14 +97,44 @@ def followAt (f : Follow) (depth : Nat) : Bool :=
   | .roots => depth == 0
   | .always => true
 
+def attrOf (v : Visit Attr) : Attr :=
+  match v.ent.node with | .leaf _ _ a => a | .dir _ _ _ a _ => a
+
+/-- `WalkEntry::metadata`: the type letter and record the entry's tests see; `none` = error -/
+def metaOf (v : Visit Attr) : Option (Char × Rec) :=
+  let a := attrOf v
+  if v.explicit then
+    -- `Follow::metadata_at_depth`: stat if the entry follows, falling back to lstat when not found
+    if followAt v.follow v.ent.depth then
+      (if a.sty == 'N' then some (a.lty, a.l) else if a.sty == 'L' then none else some (a.sty, a.s))
+    else some (a.lty, a.l)
+  else if v.ent.followed then some (a.sty, a.s) else some (a.lty, a.l)
+
 /-- `WalkEntry::file_type` as a type letter ('U' = unknown) -/
 def fileType (v : Visit Attr) : Char :=
-  let a := match v.ent.node with | .leaf _ _ a => a | .dir _ _ _ a _ => a
+  let a := attrOf v
   if v.explicit then
     if followAt v.follow v.ent.depth then
       (if a.sty == 'N' then a.lty else if a.sty == 'L' then 'U' else a.sty)
     else a.lty
   else if v.ent.followed then a.sty else a.lty
+
+/-- `XtypeMatcher`: the type seen with the opposite follow decision; `none` = too many levels of links -/
+def xtypeOf (v : Visit Attr) : Option Char :=
+  let a := attrOf v
+  if followAt v.follow v.ent.depth then some a.lty
+  else if fileType v != 'l' then some (fileType v)
+  else if a.sty == 'N' then some 'l' else if a.sty == 'L' then none else some a.sty
+
+/-- `ComparisonType::mode_bits_match` on the permission bits -/
+def permMatch (k : PermKind) (pattern value : Nat) : Bool :=
+  match k with
+  | .exact => value % 4096 == pattern
+  | .atLeast => (value &&& pattern) == pattern
+  | .anyOf => pattern == 0 || (value &&& pattern) != 0
+
+def Rec.field (r : Rec) : StatField → Nat
+  | .links => r.nlink | .inum => r.ino | .uid => r.uid | .gid => r.gid
 
 def fileName (start : Bytes) (v : Visit Attr) : Bytes :=
   match v.ent.rpath with
@@ -194,6 +251,23 @@ def sem (start : Bytes) (v : Visit Attr) (p : Prim) (s : ES) : Bool × ES :=
   | .opt => (true, s)
   | .name l => (fileName start v == l, s)
   | .typeIs c => (fileType v == c, s)
+  | .xtype c => ((match xtypeOf v with | some t => t == c | none => c == 'l'), s)
+  | .perm k m => ((match metaOf v with | some (_, r) => permMatch k m r.perm | none => false), s)
+  | .statCmp f c => ((match metaOf v with | some (_, r) => c.matches (r.field f) | none => false), s)
+  | .empty =>
+    -- regular file: size 0; directory: nothing in its listing; anything else: false
+    ((if fileType v == 'f' then (match metaOf v with | some (_, r) => r.size == 0 | none => false)
+      else if fileType v == 'd' then (match v.ent.node with | .dir _ _ _ _ kids => kids.isEmpty | _ => false)
+      else false), s)
+  | .samefile dev ino =>
+    -- `get_file_info(path, entry.follow())`: stat (lstat if not found) when the entry follows, else lstat
+    let a := attrOf v
+    let r : Option Rec :=
+      if followAt v.follow v.ent.depth then
+        (if a.sty == 'N' then some a.l else if a.sty == 'L' then none else some a.s)
+      else some a.l
+    ((match r with | some r => r.dev == dev && r.ino == ino | none => false), s)
+  | .lname l => (fileType v == 'l' && (attrOf v).target == l, s)
   | .pathOut pre term => (true, { s with gs := { s.gs with out := s.gs.out ++ pre ++ path ++ term } })
   | .lit b => (true, { s with gs := { s.gs with out := s.gs.out ++ b } })
   | .prune => (true, if fileType v == 'd' then { s with prune := true } else s)
